@@ -87,6 +87,10 @@ def run(ctx):
         groups = {}
         for st in final_states(r.dump_path, '/\\ phase = "done"', {'c', 'exp'}):
             c, e = st['c'], st['exp']
+            # TLC prints a function whose domain is 1..n as a tuple (SeriesIdx = {1,..,6}): give it back its keys
+            for fld in ('ds', 'pool'):
+                if isinstance(c[fld], list):
+                    c[fld] = {str(i + 1): v for i, v in enumerate(c[fld])}
             key = json.dumps(c['ds'], sort_keys=True)
             g = groups.get(key)
             if g is None:
